@@ -131,6 +131,84 @@ class TrapModuleUsed(_TrapMixin, types.ModuleType):
 USED_KINDS = {"trap_uc": TrapUsedConst, "trap_up": TrapUsedProp, "trap_ud": TrapUsedField}
 
 
+# C20-H2: an object whose `__class__` is a *property* (lazy proxies, mocks): `isinstance(obj, X)` reads it when
+# `type(obj)` is not a subclass of X.  Recorded, never raising (the read itself is the event).
+def _class_get(self):
+    EVENTS.append(["getattr", object.__getattribute__(self, "__dict__")["_idx"], "__class__"])
+    return type(self)
+
+
+class TrapClassProp(_TrapMixin):
+    __class__ = property(_class_get)
+
+
+USED_KINDS["trap_cls"] = TrapClassProp
+
+
+class _Weak(object):
+    pass
+
+
+def _dead_proxy():
+    """a weakref.proxy whose referent is gone: every attribute read (also `__class__`) raises ReferenceError"""
+    import weakref
+    o = _Weak()
+    p = weakref.proxy(o)
+    del o
+    return p
+
+
+# C20-H3: namespaces that are dict subclasses.  `ns[key]` runs `__missing__` (user code; defaultdict also inserts the key).
+class MissingDict(dict):
+    def __missing__(self, key):
+        EVENTS.append(["missing", -1, key])
+        raise KeyError(key)
+
+
+def _mk_ns(nsclass, items):
+    if nsclass == "defaultdict":
+        import collections
+        d = collections.defaultdict(list)
+    elif nsclass == "missing":
+        d = MissingDict()
+    else:
+        d = {}
+    for k, v in items:
+        dict.__setitem__(d, k, v)
+    return d
+
+
+_C20_PROBE = {}
+
+
+def probe_c20():
+    """which of the C20 repairs the tree under test carries (by behaviour): typeCheck = fixes/C20-H2, dictGet = fixes/C20-H3"""
+    import pyflyby
+    key = pyflyby.__file__
+    if key not in _C20_PROBE:
+        from pyflyby._autoimp import symbol_needs_import
+        n0 = len(EVENTS)
+        x = object.__new__(TrapClassProp)
+        d = object.__getattribute__(x, "__dict__")
+        d["_idx"], d["_attrs"], d["_explode"] = -7, {}, False
+        out = {}
+        try:
+            symbol_needs_import("c20probe", [{"c20probe": x}])
+            out["typeCheck"] = len(EVENTS) == n0
+        except Exception:
+            out["typeCheck"] = False
+        del EVENTS[n0:]
+        md = _mk_ns("missing", [])
+        try:
+            symbol_needs_import("c20probe.b", [md])
+            out["dictGet"] = len(EVENTS) == n0
+        except Exception:
+            out["dictGet"] = False
+        del EVENTS[n0:]
+        _C20_PROBE[key] = out
+    return dict(_C20_PROBE[key])
+
+
 def _mk_prop_class(names):
     """a class whose listed attributes are recording properties and whose other attributes go through __getattr__"""
     ns = {}
@@ -175,6 +253,9 @@ def build(spec):
         if k == "int":
             objs.append(1000 + i)
             continue
+        if k == "deadproxy":
+            objs.append(_dead_proxy())
+            continue
         if k in ("tmod", "tmod_uc"):
             x = types.ModuleType.__new__(TrapModule if k == "tmod" else TrapModuleUsed)
             types.ModuleType.__init__(x, "tm%d" % i)
@@ -190,7 +271,7 @@ def build(spec):
         d["_explode"] = i not in registered
         objs.append(x)
     for i, o in enumerate(spec["objs"]):
-        if o["kind"] in ("none", "int"):
+        if o["kind"] in ("none", "int", "deadproxy"):
             continue
         d = object.__getattribute__(objs[i], "__dict__")
         for n, j in o["attrs"].items():
@@ -300,7 +381,19 @@ class C20(Prop):
     thorough_cases = 80000
     quick_deadline_s = 50
     thorough_deadline_s = 600
-    families = {}
+    families = {
+        # C20-H2: the only thing that happened to the object is the `__class__` read of `isinstance(var, _UseChecker)`
+        "class_read_by_isinstance": lambda case, f: (
+            (f.get("what") == "user object touched by analysis" and f.get("event", [None])[0] == "getattr"
+             and f["event"][2] == "__class__" and case["objs"][f["event"][1]]["kind"] == "trap_cls")
+            or (f.get("what") == "analysis raised" and str(f.get("err", "")).startswith("ReferenceError")
+                and any(o["kind"] == "deadproxy" for o in case["objs"]))),
+        # C20-H3: dict-subclass namespace: `__missing__` ran, or (defaultdict) keys were appended and nothing else changed
+        "missing_of_dict_subclass": lambda case, f: (
+            (case.get("nsclass") in ("missing", "defaultdict") and f.get("what") == "namespace __missing__ called by analysis")
+            or (case.get("nsclass") == "defaultdict" and f.get("what") == "caller's namespaces modified"
+                and f.get("diff") == "keys-appended")),
+    }
 
     # -- cases -----------------------------------------------------------------
     def gen_case(self, rng, i, tier):
@@ -421,6 +514,17 @@ class C20(Prop):
                 r3 = rng.random()
                 code = dict(mode="prog" if r3 < 0.6 else "ast" if r3 < 0.85 else "block", prog=prog)
         case["code"] = code
+        # C20-H2 / C20-H3 (drawn last: the earlier choices of a case do not depend on them)
+        if rng.random() < 0.30:
+            for o in objs:
+                if o["kind"] == "trap" and rng.random() < 0.6:
+                    o["kind"] = "trap_cls"          # `__class__` is a recording property
+        if rng.random() < 0.10:
+            free = [k for k in range(nobj) if k not in registry.values() and objs[k]["kind"] not in ("none", "int")]
+            if free:
+                objs[rng.choice(free)] = dict(kind="deadproxy", attrs={})      # dead weakref.proxy: any read raises
+        if rng.random() < 0.12:
+            case["nsclass"] = rng.choice(["defaultdict", "missing"])           # namespaces are dict subclasses
         return case
 
     def exhaustive_cases(self, tier, rng):
@@ -532,7 +636,7 @@ class C20(Prop):
                         return [m[1] for m in missing]
         obs["src"] = src
         dump0 = ast.dump(arg) if isinstance(arg, ast.AST) else None
-        nss = [{k: objs[j] for k, j in d.items()} for d in case["ns"]]
+        nss = [_mk_ns(case.get("nsclass"), [(k, objs[j]) for k, j in d.items()]) for d in case["ns"]]
         before = [list(d.items()) for d in nss]
         nsform = case.get("nsform", "list")
         if nsform == "dict":
@@ -571,6 +675,9 @@ class C20(Prop):
             obs["ns_same"] = (len(before) == len(after) and all(
                 len(a) == len(b) and all(ka == kb and va is vb for (ka, va), (kb, vb) in zip(a, b))
                 for a, b in zip(before, after)))
+            obs["ns_diff"] = "same" if obs["ns_same"] else "keys-appended" if (len(before) == len(after) and all(
+                len(a) <= len(b) and all(ka == kb and va is vb for (ka, va), (kb, vb) in zip(a, b))
+                for a, b in zip(before, after))) else "other"
             obs["builtins_same"] = b0 == [(k, id(v)) for k, v in builtins.__dict__.items()]
             for name, v in bsaved.items():
                 if v is bsaved:
@@ -592,6 +699,7 @@ class C20(Prop):
         obs["ast_same"] = (dump0 is None) or (ast.dump(arg) == dump0)
         obs["located"] = located
         obs["fixes"] = G.probe_fixes()
+        obs["c20fix"] = probe_c20()
         return obs
 
     # -- oracle ----------------------------------------------------------------
@@ -602,6 +710,7 @@ class C20(Prop):
         # the dotted names the analysed text mentions; type comments are read from source text and PythonBlocks only;
         # in unused-import mode the docstrings are analysed too (doctests, `{name}`): every dotted word of the text counts
         dotted = dotted_names_of(src, typed=mode in ("prog", "block", "scan"), text=mode == "scan")
+        seen = set()
         for e in obs["events"]:
             ok = False
             if e[0] == "getattr":
@@ -609,13 +718,17 @@ class C20(Prop):
                     if (p + "." + e[2]) in dotted:
                         ok = True
             if not ok:
-                fails.append(dict(what="user object touched by analysis", event=e, src=src, case_ns=case["ns"],
-                                  registry=case["registry"]))
-                break
+                # one failure per class of event: `__missing__` of a namespace / `__class__` read / anything else
+                cls = "missing" if e[0] == "missing" else "class" if e[0] == "getattr" and e[2] == "__class__" else "other"
+                if cls in seen:
+                    continue
+                seen.add(cls)
+                fails.append(dict(what="namespace __missing__ called by analysis" if cls == "missing" else "user object touched by analysis",
+                                  event=e, src=src, case_ns=case["ns"], registry=case["registry"]))
         if obs["imports"] or obs["sysmodules_added"]:
             fails.append(dict(what="import attempted by analysis", imports=obs["imports"][:5], added=obs["sysmodules_added"][:5], src=src))
         if not obs["ns_same"]:
-            fails.append(dict(what="caller's namespaces modified", src=src))
+            fails.append(dict(what="caller's namespaces modified", src=src, diff=obs.get("ns_diff")))
         if not obs.get("builtins_same", True):
             fails.append(dict(what="builtins namespace modified", src=src))
         if not obs["ast_same"]:
@@ -631,6 +744,12 @@ class C20(Prop):
         analysis reads, unused-import mode) — see gen_c20's header."""
         if obs.get("nok"):
             return []
+        fx = obs.get("c20fix", {})
+        if case.get("nsclass") and not fx.get("dictGet"):
+            return []          # unrepaired C20-H3: `ns[key]` of a dict subclass is not the model's pure lookup (O judges)
+        if not fx.get("typeCheck") and str(obs.get("err", "")).startswith("ReferenceError") \
+                and any(o["kind"] == "deadproxy" for o in case["objs"]):
+            return []          # unrepaired C20-H2: isinstance() of a dead weakref.proxy raised (O judges)
 
         def val(j):
             return None if case["objs"][j]["kind"] == "none" else j
@@ -663,7 +782,7 @@ class C20(Prop):
             return "decision differs: impl=%r model=%r src=%r" % (obs["result"], m["missing"], obs["src"])
         want = []
         for e in m["effects"]:
-            if e[0] in ("getattr", "truth", "eq", "hash") and e[1] is not None and case["objs"][e[1]]["kind"] == "int":
+            if e[0] in ("getattr", "truth", "eq", "hash") and e[1] is not None and case["objs"][e[1]]["kind"] in ("int", "deadproxy"):
                 continue          # a plain int cannot record
             if e[0] == "getattr" and e[1] is not None:
                 want.append(["getattr", e[1], e[3]])
@@ -672,6 +791,9 @@ class C20(Prop):
             elif e[0] == "import":
                 want.append(["import", e[1]])
         got = [e for e in obs["events"]] + [["import", n] for n in obs["imports"]]
+        if not obs.get("c20fix", {}).get("typeCheck"):
+            # unrepaired C20-H2: the `__class__` reads of isinstance() are not in the model (O lists them as the known finding)
+            got = [e for e in got if not (e[0] == "getattr" and e[2:] == ["__class__"])]
         if got != want:
             return "effects differ: recorded=%r model=%r src=%r" % (got[:12], want[:12], obs["src"])
         if not m["readonly"]:
@@ -698,6 +820,11 @@ class C20(Prop):
         inc("nsform_" + case.get("nsform", "list"))
         if case.get("builtins"):
             inc("builtins_traps")
+        if case.get("nsclass"):
+            inc("nsclass_" + case["nsclass"])
+        for o in case["objs"]:
+            if o["kind"] in ("trap_cls", "deadproxy"):
+                inc("objkind_" + o["kind"])
         for f in obs.get("features", []):
             inc("construct_" + f)
         for r in obs.get("nok", []):
